@@ -166,7 +166,11 @@ def run_srv(eng, case):
     out = []
     try:
         s = Server(f'c16_{_SRV_N[0]}', NetAddr('127.0.0.1', 57200), o)
-        s._set_client_id(case['client_id'])
+        if case.get('login_max_logins') is not None:
+            # the '/done /notify <id> <maxLogins>' reply of a server started by someone else
+            s._status_watcher._handle_login_done(case['client_id'], case['login_max_logins'])
+        else:
+            s._set_client_id(case['client_id'])
     except Exception as e:
         return [f'server {exc_name(e)}']
     try:
@@ -205,6 +209,10 @@ def run_srv(eng, case):
                         out.append(f'free {kind} {idx}')
                     else:
                         out.append('skip')
+                elif w[0] == 'bfreeall':
+                    Buffer.free_all(s)
+                    objs[2] = []       # the objects are stale now (free_all does not reset them): not used again
+                    out.append('bfreeall ok')
                 elif w[0] == 'refree':
                     lst = dead[int(w[1])]
                     if lst:
